@@ -97,7 +97,7 @@ CHECKS = {
    "Completeness uses the narrowest reading of 'matches'.",
    "5/C18"),
  "C19": ("exploration",
-   "runtime monitor on the real daemon over TLS/gRPC: 16 methods x 16 caller credential kinds x 2 CA configurations, plus forged session tickets, with state-effect check on the stopped daemon's directories",
+   "runtime monitor on the real daemon over TLS/gRPC: 16 methods x 20 caller credential kinds x 2 CA configurations, plus forged session tickets, with state-effect check on the stopped daemon's directories",
    "Every RPC of every registered service is called on a real dirk child process with certificates generated at run time; callers without a certificate from the configured authority must obtain nothing and change nothing, accepted callers get exactly what the permission table gives their subject common name (SAN and extra chain certificates must not count). Hostile certificates (self-signed, other authority, expired / not yet valid of each origin, server-only usage) are force-sent so that the server decides; a host trust store holding the other authority, source-port reuse by a different client, a server certificate bundle carrying the other authority's certificate, TLS session resumption with tickets the caller minted itself under guessable keys, and callers with different certificates served at the same time (on the daemon built with the race detector) are covered.",
    "Loopback TCP; state effects read after the daemon stops.",
    "5/C19"),
@@ -106,6 +106,24 @@ CHECKS = {
    "Tens of thousands of hostile requests for all 16 methods; a process death, an unanswered canary or an input unanswered for 45 s is a violation attributed to the last logged input; a concurrent phase mixes listing, account creation, signing and locking (in-process, over the wire and under the race detector). A panic in the goroutine serving a request in-process makes the input a candidate that is replayed against the real daemon, which decides; inputs of earlier findings are replayed in every run; text-shaped fields get malformed-Unicode generators; distributed generations that really run (fresh, existing and store-time-refused names) are part of the stream.",
    "A crash means process death or a failed canary; an error reply is fine.",
    "5/C20"),
+}
+
+# Sentences added by the tenth round of seeded changes (appended to the level text / technique of the check).
+ROUND10_TEXT = {
+ "C05": " A child process under the race detector runs generic requests, attestations and proposals at the same moment (start barrier, 16 requests per round): every generic signature must be over the request's own (data, domain), never over the caller's data under the domain of a neighbouring attestation or proposal.",
+ "C06": " For a single request the short verdict list is the empty list.",
+ "C08": " The real-fetcher slice also creates accounts through Dirk at run time (the same account name in two wallets) and signs with them by name and by key.",
+ "C10": " Wrong versions are older and newer ones (4, 3, 6, 15, 50, 51).",
+ "C12": " After every generation each participant also signs addressed by the new account's public key (same signature as by name).",
+ "C13": " The wire slice ends with forty generations in a row whose contribution the peer refuses with an RPC error: each must end with an error (execute answered), none may leave an account.",
+ "C16": " Two participants contributing to the third at the same moment (start barrier, through the receiver handler) must each be answered with their own share.",
+ "C17": " Every fourth prepare and abort is made with an already cancelled context.",
+ "C18": " One account per run is created by a request whose context is already cancelled: if it exists in the wallet it must be listed.",
+ "C19": " Valid certificates of the configured authority for names near a permitted one (other letter case, trailing space, prefix) are callers of their own name: not permitted.",
+ "C20": " The wire daemon has two configured, unreachable peers and receives fifty well-formed distributed Generate requests in a row: each must be answered.",
+}
+ROUND10_TECH = {
+ "C05": "; race detector over the three signing endpoints in flight together",
 }
 
 NOT_YET = {
@@ -119,6 +137,7 @@ def main():
         pid = p['id']
         if pid in CHECKS:
             cat, tech, text, note, ref = CHECKS[pid]
+            text, tech = text + ROUND10_TEXT.get(pid, ""), tech + ROUND10_TECH.get(pid, "")
             checks.append({
                 "property_id": pid,
                 "quick_cmd": f"./check {pid} quick",
